@@ -1,5 +1,5 @@
 (* Text/CleartextProofs.v -- proofs about the cleartext framework model (C16). *)
-From Rpgp Require Import Base.Octets Base.Res Text.Canon Text.Cleartext.
+From Rpgp Require Import Base.Octets Base.Res Text.Canon Text.CanonProofs Text.Cleartext.
 From Coq Require Import ZifyBool ZifyN ZifyNat.
 
 (* ------------------------------------------------ escaping, line by line = octet by octet *)
@@ -161,3 +161,55 @@ Qed.
 (* the pinned tree signed the untrimmed text but verified the trimmed text *)
 Theorem sign_verify_legacy_refuted : exists t, sign_input_legacy t <> signed_form t.
 Proof. exists [x66; SP; LF]. vm_compute. discriminate. Qed.
+
+(* ------------------------------------------------ LF <-> CR LF conversion of a line *)
+
+Lemma split_eol_lf c : ends_in_cr c = false -> split_eol (c ++ [LF]) = (c, [LF]).
+Proof.
+  intros Hc. unfold split_eol.
+  rewrite removelast_last, last_last, lenN_app.
+  change (lenN [LF]) with 1.
+  assert (H1 : (2 <=? lenN c + 1) && beq (last c x00) CR = false).
+  { destruct c as [|a c']; [reflexivity|]. unfold ends_in_cr in Hc. rewrite Hc. apply andb_false_r. }
+  rewrite H1. cbn [andb].
+  replace (1 <=? lenN c + 1) with true by (symmetry; apply N.leb_le; lia).
+  rewrite beq_refl. cbn [andb].
+  replace (lenN c + 1 - 1) with (lenN c) by lia. rewrite takeN_app. reflexivity.
+Qed.
+
+Lemma split_eol_crlf c : split_eol (c ++ [CR; LF]) = (c, [CR; LF]).
+Proof.
+  unfold split_eol.
+  change (c ++ [CR; LF]) with (c ++ [CR] ++ [LF]). rewrite app_assoc.
+  rewrite removelast_last, !last_last, lenN_app, lenN_app.
+  change (lenN [LF]) with 1. change (lenN [CR]) with 1.
+  replace (2 <=? lenN c + 1 + 1) with true by (symmetry; apply N.leb_le; lia).
+  rewrite !beq_refl. cbn [andb].
+  replace (lenN c + 1 + 1 - 2) with (lenN c) by lia.
+  rewrite <- app_assoc. rewrite takeN_app. reflexivity.
+Qed.
+
+Lemma ends_cr_false_of l : ends_in_cr l = false -> ends_cr false l = false.
+Proof. destruct l; [reflexivity|]. unfold ends_in_cr, ends_cr. intros ->. reflexivity. Qed.
+
+(* a line that ends in LF and the same line ending in CR LF have the same signed form;
+   [c] is any line content (the theorem needs no assumption on it) *)
+Theorem ut_line_lf_crlf c :
+  ends_in_cr c = false -> canon (ut_line (c ++ [LF])) = canon (ut_line (c ++ [CR; LF])).
+Proof.
+  intros Hc. unfold ut_line. rewrite (split_eol_lf c Hc), split_eol_crlf.
+  set (tr := trim_end (strip_dash_sp c)). cbn [is_lf]. rewrite beq_refl. cbn [andb].
+  replace (beq CR LF) with false by reflexivity. cbn [andb].
+  destruct (ends_in_cr tr) eqn:Et; [reflexivity|].
+  rewrite !canon_app, (ends_cr_false_of tr Et). reflexivity.
+Qed.
+
+(* the pinned tree merged a content CR with the LF behind it *)
+Theorem ut_line_merged_refuted :
+  exists c, ends_in_cr c = false /\
+    canon (ut_line_merged (c ++ [LF])) <> canon (ut_line_merged (c ++ [CR; LF])).
+Proof. exists [x61; CR; SP]. split; [reflexivity|]. vm_compute. discriminate. Qed.
+
+Theorem signed_form_merged_refuted :
+  exists t, signed_form_merged (canon t) <> signed_form_merged t.
+Proof. exists [x61; CR; SP; LF]. vm_compute. discriminate. Qed.
